@@ -49,6 +49,9 @@ type inst interface {
 	Soundness(seed uint64, e1, e2 []byte) error
 	// Simulate: RunSimulator(x, e) then Verify(x, a, e, z).
 	Simulate(seed uint64, e []byte) error
+	// SimulateUnder: RunSimulator(x, eSim) (which must verify under eSim), then Verify(x, a, e, z)
+	// under ANOTHER challenge e; reports whether that was accepted.
+	SimulateUnder(seed uint64, eSim, e []byte) (bool, error)
 	// Interactive runs the plain sigma Prover/Verifier pair; stmt selects the verifier's statement.
 	Interactive(ctxP, ctxV *session.Context, seed uint64) error
 	// ZK runs the 5-round zk-compiled protocol; returns the step that failed ("" = accepted).
@@ -291,6 +294,21 @@ func (s *sig[X, W, A, S, Z]) Simulate(seed uint64, e []byte) error {
 		return &stepErr{"Verify(simulated transcript)", err}
 	}
 	return nil
+}
+
+func (s *sig[X, W, A, S, Z]) SimulateUnder(seed uint64, eSim, e []byte) (bool, error) {
+	p, err := s.verifierProto(vlib.NewPRNG(seed, "simulator"), false)
+	if err != nil {
+		return false, &stepErr{"NewProtocol", err}
+	}
+	a, z, err := p.RunSimulator(s.x, eSim)
+	if err != nil {
+		return false, &stepErr{"RunSimulator", err}
+	}
+	if err := p.Verify(s.x, a, eSim, z); err != nil {
+		return false, &stepErr{"Verify(simulated transcript)", err}
+	}
+	return p.Verify(s.x, a, e, z) == nil, nil
 }
 
 func (s *sig[X, W, A, S, Z]) Interactive(ctxP, ctxV *session.Context, seed uint64) error {
